@@ -97,11 +97,11 @@ def fms_int(ty, a, b, c):
 
 
 def fnma_int(ty, a, b, c):
-    return _with_mul(ty, a, b, 'z-x*y', lambda m: T.sub(c, m))
+    return _with_mul(ty, a, b, 'z-x*y', lambda m: T.sub(c, m)) + _with_mul(ty, T.neg(a), b, '(-x)*y+z', lambda m: T.add(m, c))[1:]
 
 
 def fnms_int(ty, a, b, c):
-    return _with_mul(ty, a, b, '-(x*y)-z', lambda m: T.sub(T.neg(m), c))
+    return _with_mul(ty, a, b, '-(x*y)-z', lambda m: T.sub(T.neg(m), c)) + _with_mul(ty, T.neg(a), b, '(-x)*y-z', lambda m: T.sub(m, c))[1:]
 
 
 def _promoted(o, ty, a, b):
